@@ -3,6 +3,9 @@ import math
 
 import numpy as np
 
+import strawberryfields as sf
+from strawberryfields import ops as sfops
+
 from props import backends_common as bc
 from props import gauss_common as gc
 from props import bosonic_model as bm
@@ -200,7 +203,35 @@ def reference(spec):
             S = np.block([[Te.real, -Te.imag], [Te.imag, Te.real]])
             mu = S @ mu
             V = S @ V @ S.T + np.eye(2 * n) - S @ S.T
-        elif name == "GaussianNoDecomp":
+        elif name == "Interferometer":
+            # documented action a_i -> sum_j U_ij a_j on the listed modes (in the listed order)
+            Ue = np.eye(n, dtype=complex)
+            Ue[np.ix_(modes, modes)] = np.array(params[0], dtype=float) + 1j * np.array(params[1], dtype=float)
+            S = np.block([[Ue.real, -Ue.imag], [Ue.imag, Ue.real]])
+            mu = S @ mu
+            V = S @ V @ S.T
+        elif name == "GaussianTransform":
+            idx = list(modes) + [m + n for m in modes]
+            S = np.eye(2 * n)
+            S[np.ix_(idx, idx)] = np.array(params[0], dtype=float)
+            mu = S @ mu
+            V = S @ V @ S.T
+        elif name == "MSgate":
+            # measurement-based squeezing, average map (documented): R(phi/2) . (X, Y) . R(-phi/2), cos(theta) = e^-|r|, r < 0 <=> phi + pi
+            r_, phi_, r_anc, eta = params[0], params[1], params[2], params[3]
+            if r_ < 0:
+                phi_ += math.pi
+            r_ = abs(r_)
+            cth = math.exp(-r_)
+            sth2 = 1 - cth ** 2
+            Rm, Rp = _embed1(n, k, _rot(-phi_ / 2)), _embed1(n, k, _rot(phi_ / 2))
+            X = np.eye(2 * n)
+            X[k, k], X[k + n, k + n] = cth, 1 / cth
+            Y = np.zeros((2 * n, 2 * n))
+            Y[k, k], Y[k + n, k + n] = sth2 * math.exp(-2 * r_anc), (sth2 / cth ** 2) * (1 - eta) / eta
+            mu = Rp @ X @ Rm @ mu
+            V = Rp @ (X @ Rm @ V @ Rm.T @ X.T + Y) @ Rp.T
+        elif name in ("GaussianNoDecomp", "GaussianDecomp"):
             Vn, rn = np.array(params[0], dtype=float), np.array(params[1], dtype=float)
             kk = len(modes)
             idx = list(modes) + [m + n for m in modes]
